@@ -517,6 +517,161 @@ def loopified(fi: FuncInfo) -> FuncInfo:
     return FuncInfo(fi.module, fi.qualname, node, fi.cls)
 
 
+class _Subst(ast.NodeTransformer):
+    def __init__(self, names: Dict[str, ast.expr]):
+        self.names = names
+
+    def visit_Name(self, n: ast.Name):
+        r = self.names.get(n.id)
+        if r is None:
+            return n
+        if isinstance(r, ast.Name):
+            return ast.copy_location(ast.Name(id=r.id, ctx=n.ctx), n)
+        return ast.copy_location(copy.deepcopy(r), n) if isinstance(n.ctx, ast.Load) else n
+
+
+def _own_locals(fn: ast.FunctionDef) -> Set[str]:
+    """Names bound in the scope of the function itself (parameters, assignment / loop / with targets; not comprehension variables)."""
+    out = {a.arg for a in fn.args.args + fn.args.kwonlyargs}
+
+    def walk(n: ast.AST):
+        for c in ast.iter_child_nodes(n):
+            if isinstance(c, (ast.ListComp, ast.SetComp, ast.DictComp, ast.GeneratorExp, ast.Lambda, ast.FunctionDef, ast.ClassDef)):
+                continue
+            if isinstance(c, ast.Name) and isinstance(c.ctx, ast.Store):
+                out.add(c.id)
+            walk(c)
+
+    walk(fn)
+    return out
+
+
+def unfolded(repo, fi: FuncInfo) -> FuncInfo:
+    """A copy of the function in which a *generator helper* it consumes is written at the place where it is consumed.
+
+    A module-level generator function that the reference copy of the module does not have, called exactly once in the module -
+    at the top level of this function, with plain names / constants as arguments - and without `return` is the loop it stands
+    for: its body runs with the caller's values, every `yield v` adds v to the sequence the caller iterates.  The statement
+        T = sorted(produce(points, by_point))
+    reads   produce_items = []; <body of produce, `yield v` -> produce_items.append(v)>; T = sorted(produce_items)
+    (a consumer that walks the sequence once in full sees the same members in the same order).  The fact rules then run on the
+    loop where it lives."""
+    helpers = new_helpers(repo, fi)
+    gens = {q: f for q, f in helpers.items() if any(isinstance(n, (ast.Yield, ast.YieldFrom)) for n in ast.walk(f))}
+    if not gens:
+        return fi
+    node = copy.deepcopy(fi.node)
+    changed = False
+    for _ in range(4):
+        step = False
+        for k, st in enumerate(list(node.body)):
+            heads = [st.value] if isinstance(st, (ast.Assign, ast.AnnAssign, ast.Expr, ast.Return)) and st.value is not None else [st.iter] if isinstance(st, ast.For) else []
+            calls = [c for h in heads for c in ast.walk(h) if isinstance(c, ast.Call) and isinstance(c.func, ast.Name) and c.func.id in gens]
+            if len(calls) != 1:
+                continue
+            call = calls[0]
+            g = gens[call.func.id]
+            uses = sum(1 for f in fi.module.funcs.values() for n in ast.walk(f.node) if isinstance(n, ast.Name) and n.id == g.name and isinstance(n.ctx, ast.Load))
+            if uses != 1:
+                continue
+            if any(isinstance(n, (ast.Return, ast.FunctionDef, ast.Lambda, ast.Global, ast.Nonlocal)) for b in g.body for n in ast.walk(b)):
+                continue
+            if g.args.vararg or g.args.kwarg or g.args.kwonlyargs or any(isinstance(a, ast.Starred) for a in call.args) or any(kw.arg is None for kw in call.keywords):
+                continue
+            # a yield used as an expression (send protocol) is not a plain producer
+            plain = {id(b.value) for x in g.body for b in ast.walk(x) if isinstance(b, ast.Expr) and isinstance(b.value, (ast.Yield, ast.YieldFrom))}
+            if any(isinstance(n, (ast.Yield, ast.YieldFrom)) and id(n) not in plain for b in g.body for n in ast.walk(b)):
+                continue
+            params = [a.arg for a in g.args.args]
+            bound: Dict[str, ast.expr] = dict(zip(params, call.args))
+            for kw in call.keywords:
+                bound[kw.arg] = kw.value
+            defaults = dict(zip(params[len(params) - len(g.args.defaults) :], g.args.defaults))
+            for q in params:
+                if q not in bound and q in defaults:
+                    bound[q] = defaults[q]
+            if set(bound) != set(params) or not all(isinstance(v, (ast.Name, ast.Constant)) for v in bound.values()):
+                continue
+            glocals = _own_locals(g) - set(params)
+            # a parameter the helper re-binds would re-bind the caller's variable
+            if any(isinstance(n, ast.Name) and isinstance(n.ctx, (ast.Store, ast.Del)) and n.id in params for b in g.body for n in ast.walk(b)):
+                continue
+            mine = _own_locals(node)
+            acc = f"{g.name}_items"
+            if acc in mine or acc in glocals:
+                continue
+            names: Dict[str, ast.expr] = dict(bound)
+            for v in sorted(glocals & mine):
+                new = f"{v}_{g.name}"
+                if new in mine or new in glocals:
+                    names = {}
+                    break
+                names[v] = ast.Name(id=new, ctx=ast.Load())
+            if not names and (glocals & mine or params):
+                continue
+            body = [_Subst(names).visit(copy.deepcopy(b)) for b in g.body if not (isinstance(b, ast.Expr) and isinstance(b.value, ast.Constant))]
+
+            class Y(ast.NodeTransformer):
+                def visit_Expr(self, n: ast.Expr):
+                    if isinstance(n.value, ast.Yield):
+                        v = n.value.value if n.value.value is not None else ast.Constant(value=None)
+                        return ast.copy_location(ast.Expr(value=ast.Call(func=ast.Attribute(value=ast.Name(id=acc, ctx=ast.Load()), attr="append", ctx=ast.Load()), args=[v], keywords=[])), n)
+                    if isinstance(n.value, ast.YieldFrom):
+                        return ast.copy_location(ast.Expr(value=ast.Call(func=ast.Attribute(value=ast.Name(id=acc, ctx=ast.Load()), attr="extend", ctx=ast.Load()), args=[n.value.value], keywords=[])), n)
+                    return n
+
+            body = [Y().visit(b) for b in body]
+            init = ast.copy_location(ast.Assign(targets=[ast.Name(id=acc, ctx=ast.Store())], value=ast.List(elts=[], ctx=ast.Load())), st)
+
+            class R(ast.NodeTransformer):
+                def visit_Call(self, n: ast.Call):
+                    if n is call:
+                        return ast.copy_location(ast.Name(id=acc, ctx=ast.Load()), n)
+                    self.generic_visit(n)
+                    return n
+
+            if isinstance(st, ast.For):
+                st.iter = R().visit(st.iter)
+            else:
+                st.value = R().visit(st.value)
+            new = [init] + body + [st]
+            for n in new:
+                ast.fix_missing_locations(n)
+            node.body[k : k + 1] = new
+            changed = step = True
+            break
+        if not step:
+            break
+    if not changed:
+        return fi
+    _inline_iteration_alias(node)
+    return FuncInfo(fi.module, fi.qualname, node, fi.cls)
+
+
+def _inline_iteration_alias(node: ast.FunctionDef) -> None:
+    """`T = sorted(xs)` at the top level, T bound once and read once - as the sequence a later loop / comprehension walks, with
+    nothing in between that touches xs - is that loop over `sorted(xs)`."""
+    for k, st in enumerate(list(node.body)):
+        if not (isinstance(st, ast.Assign) and len(st.targets) == 1 and isinstance(st.targets[0], ast.Name) and isinstance(st.value, ast.Call) and astq.callee_name(st.value) in ("sorted", "list", "tuple") and st.value.args and all(isinstance(a, ast.Name) for a in st.value.args)):
+            continue
+        t = st.targets[0].id
+        occ = [n for n in ast.walk(node) if isinstance(n, ast.Name) and n.id == t]
+        if len(occ) != 2:
+            continue
+        use = next(n for n in occ if isinstance(n.ctx, ast.Load)) if any(isinstance(n.ctx, ast.Load) for n in occ) else None
+        if use is None or k + 1 >= len(node.body):
+            continue
+        nxt = node.body[k + 1]
+        holders = [h for h in ast.walk(nxt) if (isinstance(h, ast.For) and h.iter is use) or (isinstance(h, ast.comprehension) and h.iter is use)]
+        if len(holders) != 1 or (isinstance(holders[0], ast.For) and holders[0] is not nxt):
+            continue
+        if isinstance(holders[0], ast.comprehension) and not any(isinstance(c, (ast.ListComp, ast.SetComp, ast.GeneratorExp, ast.DictComp)) and c.generators[0] is holders[0] for c in ast.walk(nxt)):
+            continue
+        holders[0].iter = st.value
+        node.body.remove(st)
+        return
+
+
 def constant_tuples(fi: FuncInfo, before: ast.AST) -> Dict[str, ast.expr]:
     """Locals bound once, at the top level of the function before `before`, to a tuple display (immutable): a dispatch table
     written ahead of the loop that walks over it reads like the literal it is."""
@@ -1017,6 +1172,39 @@ class _Idioms(ast.NodeTransformer):
 
 def idioms(e: ast.expr) -> ast.expr:
     return _Idioms().visit(e)
+
+
+def _boolean_valued(e: ast.AST) -> bool:
+    if isinstance(e, ast.Compare):
+        return True
+    if isinstance(e, ast.UnaryOp) and isinstance(e.op, ast.Not):
+        return True
+    if isinstance(e, ast.BoolOp):
+        return all(_boolean_valued(v) for v in e.values)
+    return isinstance(e, ast.Call) and isinstance(e.func, ast.Name) and e.func.id == "bool" and len(e.args) == 1
+
+
+def two_way_tables(repo, module: str):
+    """Rewriter: `TABLE[<test>]`, TABLE a module-level dict display with exactly the keys True and False and <test> a comparison
+    (always a bool), is `TABLE[True] if <test> else TABLE[False]` - a dispatch table keyed by a test reads like the branch."""
+
+    class T(ast.NodeTransformer):
+        def visit_Subscript(self, n: ast.Subscript):
+            self.generic_visit(n)
+            if isinstance(n.value, ast.Name) and isinstance(n.ctx, ast.Load) and _boolean_valued(n.slice):
+                try:
+                    d = repo.const_expr(module, n.value.id)
+                except Exception:
+                    return n
+                if isinstance(d, ast.Dict) and len(d.keys) == 2 and all(isinstance(k, ast.Constant) and isinstance(k.value, bool) for k in d.keys) and {k.value for k in d.keys} == {True, False}:
+                    by = {k.value: v for k, v in zip(d.keys, d.values)}
+                    return ast.copy_location(ast.IfExp(test=n.slice, body=copy.deepcopy(by[True]), orelse=copy.deepcopy(by[False])), n)
+            return n
+
+    def rewrite(e: ast.expr) -> ast.expr:
+        return T().visit(e)
+
+    return rewrite
 
 
 def str_parts(e: ast.expr) -> Optional[List[str]]:
@@ -1651,7 +1839,8 @@ def check_cis_trans(chk, fi: FuncInfo, fold, c: Dict[str, Any]) -> None:
     if len(params) != 2:
         raise NotReadable("detect_cis_trans does not take two residues")
     ri, rj = params
-    paths = SX.Executor(rewrite=idioms, helpers=new_helpers(repo, fi)).run(fi.node.body)
+    tables = two_way_tables(repo, fi.module.name)
+    paths = SX.Executor(rewrite=lambda e: tables(idioms(e)), helpers=new_helpers(repo, fi)).run(fi.node.body)
     rets = [p for p in paths if p.exit in ("return", "fall")]
     letters_ret = {}
     stored = 0
@@ -1768,8 +1957,10 @@ def check_base_normal(chk, fi: FuncInfo) -> None:
                     return copy.deepcopy(e)
             return n
 
+    tables = two_way_tables(repo, fi.module.name)
+
     def rw(e: ast.expr) -> ast.expr:
-        return SX._simplify(_ClassConst().visit(idioms(e)))
+        return SX._simplify(_ClassConst().visit(tables(idioms(e))))
 
     paths = SX.Executor(rewrite=rw).run(fi.node.body)
     def unread(node: ast.AST) -> bool:
